@@ -12,12 +12,22 @@ ORDER_FREE_CONSUMERS = {"any", "all", "count", "sum", "product", "min", "max", "
 PASS_THROUGH = {"map", "filter", "filter_map", "flat_map", "flatten", "cloned", "copied", "by_ref", "inspect",
                 "chain", "into_iter", "iter", "rev", "peekable", "map_while", "take_while", "skip_while", "fuse"}
 
-# sites whose sink the classifier cannot see through; one line of reason each (key = fn path : method)
-ALLOW = {
-    "graphql_loader::loader::get_required_files:iter_loaded_files":
-        "loader ABI `get_required_files`: the host (packages/loader-core) treats the newline-joined list as a set of "
-        "files to load; emitted JavaScript does not depend on it. Not a `generate` output.",
-}
+# Sites whose sink is order-dependent but harmless, one reason each.  A listed site is identified by *what* is iterated (the
+# container's field), *what kind of sink* the order reaches, and the ABI entry points it is (not) reachable from -- never by the
+# name or module of the enclosing function: a site that moves (helper extraction, method on another type, new module) is the same
+# site; a second site of the same description, or the same iteration reaching the emit path, is a new one.  `source` = (name of
+# the ADT, prefix of the type of the iterated field): the field itself may be renamed.
+ALLOW = [
+    {"crate": "graphql_loader", "source": ("Task", "std::collections::hash::map::HashMap<std::path::PathBuf, "), "sink": "Vec", "count": 1,
+     "only_under": "graphql_loader::get_required_files", "never_under": ("graphql_loader::emit_js", "graphql_loader::js_printer::print_js"),
+     "reason": "loader ABI `get_required_files`: the host (packages/loader-core) treats the newline-joined list as a set of "
+               "files to load; emitted JavaScript does not depend on it. Not a `generate` output."},
+]
+SHORT_CIRCUIT = ("core::result::Result<", "core::option::Option<")
+SORTING_ADAPTORS = {"sorted", "sorted_by", "sorted_by_key", "sorted_unstable", "sorted_unstable_by", "sorted_unstable_by_key", "sorted_by_cached_key"}
+ORDER_DEP_CONSUMERS = {"fold", "try_fold", "find", "find_map", "position", "next", "last", "nth", "reduce", "join", "first", "take", "skip",
+                       "step_by", "next_back", "nth_back", "rposition", "rfind", "min_by_key", "max_by_key", "min_by", "max_by", "concat"}
+NEUTRAL_ON_LOCAL = {"push", "reserve", "reserve_exact", "shrink_to_fit", "capacity", "len", "is_empty", "dedup", "dedup_by_key"}
 
 
 def is_hash(t):
@@ -28,10 +38,13 @@ def is_unordered(t):
     return peel_ty(t).startswith(UNORDERED)
 
 
+def _tyname(t):
+    return peel_ty(t).split("<")[0].split("::")[-1]
+
+
 def hash_sources(P):
     """[(fn, node_index, node, what)] every expression that exposes the iteration order of a hash container"""
     out = []
-    wrappers = set()
     for f in P.fns.values():
         if f.derived or "::tests::" in f.path or f.path.endswith("::tests"):
             continue
@@ -52,11 +65,26 @@ def hash_sources(P):
     return out
 
 
-def classify(P, f, i, n, depth=0):
-    """-> (verdict, reason); verdict in {"insensitive", "sensitive", "unknown", ("wrapper", fn)}"""
+def source_of(f, n):
+    """what is iterated, independent of where the iteration is written: `Adt.field` of the container when the receiver derives
+    from a field, else the container's type"""
+    from prov import Prov
+    recv = n.get("recv") if n.get("k") == "MethodCall" else (n["args"][0] if n.get("args") else None)
+    if recv is None:
+        return "?"
+    flds = sorted("%s.%s" % ((a[1] or "?").split("::")[-1], a[2]) for a in Prov(f).atoms(recv) if a[0] == "field")
+    if flds:
+        return "/".join(flds)
+    return _tyname(recv.get("ta") or recv.get("t") or n.get("recv_ty") or "?")
+
+
+def classify(P, f, i, n, depth=0, enumerated=False):
+    """follow the value that carries the iteration order from nodes()[i] to its sink
+    -> (verdict, reason, sink); verdict in {"insensitive", "sensitive", "unknown", ("wrapper", fn)}; sink = short class of an
+    order-dependent sink (the container it accumulates into, `print`, `first-match`, ...)"""
     acc = f.nodes()
     cur_i, cur = i, n
-    enumerated = False
+    collected = None
     while True:
         pi = acc[cur_i][1]
         if pi < 0:
@@ -72,99 +100,144 @@ def classify(P, f, i, n, depth=0):
             if m in PASS_THROUGH:
                 cur_i, cur = pi, p
                 continue
-            if m in ("collect", "unzip", "partition"):
+            if m in SORTING_ADAPTORS or (collected and m.startswith("sort")):
+                return "insensitive", "sorted (`%s`) before it is used" % m, None
+            if m in ("collect", "unzip", "partition", "collect_vec"):
                 t = p.get("t", "")
+                if peel_ty(t).startswith(SHORT_CIRCUIT):
+                    return "sensitive", "collected into %s: stops at the first failing element in iteration order" % _tyname(t), "first-failure"
                 if is_unordered(t) and not enumerated:
-                    return "insensitive", "collected into %s" % peel_ty(t).split("<")[0]
-                return sorted_before_use(P, f, pi, p)
+                    return "insensitive", "collected into %s" % peel_ty(t).split("<")[0], None
+                collected = _tyname(t)
+                cur_i, cur = pi, p
+                continue
             if m in ORDER_FREE_CONSUMERS and not enumerated:
-                return "insensitive", "consumed by order-free `%s`" % m
-            if m in ("for_each", "fold", "try_for_each", "find", "find_map", "position", "next", "last", "nth",
-                     "reduce", "join", "collect_vec"):
-                return "sensitive", "consumed by order-dependent `%s`" % m
-            return "unknown", "unrecognised consumer `%s`" % m
+                return "insensitive", "consumed by order-free `%s`" % m, None
+            if m in ("for_each", "try_for_each") and p["args"] and p["args"][0].get("k") == "Closure":
+                return effects_of(P, f, p["args"][0]["body"], "closure of `%s`" % m)
+            if m in ORDER_DEP_CONSUMERS or m in ("for_each", "try_for_each"):
+                return "sensitive", "consumed by order-dependent `%s`" % m, "first-match" if m in ("find", "find_map", "position", "next", "first", "last", "nth") else m
+            return "unknown", "unrecognised consumer `%s`" % m, None
         if pk == "MethodCall" and any(a is cur for a in p.get("args", [])):
             m = p["method"]
-            if m == "extend" and is_unordered(p.get("recv_ty", "")):
-                return "insensitive", "extends a %s" % peel_ty(p["recv_ty"]).split("<")[0]
+            if cur.get("k") == "Closure":
+                if m in PASS_THROUGH:
+                    cur_i, cur = pi, p
+                    continue
+                return "unknown", "produced inside a closure passed to `%s`" % m, None
+            if m in ("extend", "append", "extend_from_slice"):
+                if is_unordered(p.get("recv_ty", "")):
+                    return "insensitive", "extends a %s" % peel_ty(p["recv_ty"]).split("<")[0], None
+                return "sensitive", "appended to ordered container %s" % _tyname(p.get("recv_ty", "")), _tyname(p.get("recv_ty", ""))
             if m in ("chain", "zip"):
                 cur_i, cur = pi, p
                 continue
-            return "unknown", "passed to `%s`" % m
+            return "unknown", "passed to `%s`" % m, None
         if pk == "Call" and any(a is cur for a in p.get("args", [])):
             c = call_name(p) or ""
-            if c.endswith("IntoIterator::into_iter"):
+            if c.endswith(("IntoIterator::into_iter", "Try::branch")) or c in ("core::result::Result::Ok", "core::option::Option::Some"):
                 cur_i, cur = pi, p
                 continue
-            return "unknown", "passed to `%s`" % short(c)
+            if c.endswith("FromIterator::from_iter"):
+                t = p.get("t", "")
+                if peel_ty(t).startswith(SHORT_CIRCUIT):
+                    return "sensitive", "collected into %s: stops at the first failing element in iteration order" % _tyname(t), "first-failure"
+                if is_unordered(t) and not enumerated:
+                    return "insensitive", "collected into %s" % peel_ty(t).split("<")[0], None
+                collected = _tyname(t)
+                cur_i, cur = pi, p
+                continue
+            return "unknown", "passed to `%s`" % short(c), None
         if pk == "Match" and p.get("src") == "ForLoopDesugar" and p.get("scrut") is cur:
-            return for_body(P, f, pi, p)
+            return effects_of(P, f, p, "loop body")
+        if pk == "Match" and str(p.get("src", "")).startswith("TryDesugar") and p.get("scrut") is cur:
+            cur_i, cur = pi, p
+            continue
         if pk in ("AddrOf", "DropTemps", "Use", "Cast"):
             cur_i, cur = pi, p
             continue
+        if pk == "Closure" and p.get("body") is cur:
+            cur_i, cur = pi, p
+            continue
+        if pk == "Ret":
+            return ("wrapper", f), "returned from %s" % short(f.path), None
         if pk == "Block" and p.get("tail") is cur:
-            # tail of the function body -> the function returns the iterator
+            # tail of the function body -> the function returns the iterator (or the collection built from it)
             gp = acc[pi][1]
             if gp >= 0 and acc[gp][0] is f.body or p is f.body.get("b"):
-                return ("wrapper", f), "returned from %s" % short(f.path)
+                return ("wrapper", f), "returned from %s" % short(f.path), None
             cur_i, cur = pi, p
             continue
         if pk == "BlockExpr":
             cur_i, cur = pi, p
             continue
+        if pk == "Let" and p.get("init") is cur and p["pat"].get("k") == "Binding" and "sub" not in p["pat"]:
+            return follow_local(P, f, p["pat"]["local"], pi, depth, enumerated, collected)
         if pk == "Let":
-            return "unknown", "bound to a local"
+            return "unknown", "bound by a destructuring pattern", None
         break
-    return "unknown", "escapes the recognised idioms"
+    if collected:
+        return "sensitive", "collected into ordered container %s without sorting" % collected, collected
+    return "unknown", "escapes the recognised idioms", None
 
 
-def sorted_before_use(P, f, ci, collect_node):
-    """collect into an ordered container is fine iff the binding is sorted before any other use"""
+def follow_local(P, f, lid, let_i, depth, enumerated, collected):
+    """the order-carrying value was bound to a local: it is harmless iff it is sorted before any use that exposes its order,
+    or every such use is itself order-insensitive"""
+    if depth >= 4:
+        return "unknown", "bound to a local (chain of bindings too long to follow)", None
     acc = f.nodes()
-    pi = acc[ci][1]
-    if pi >= 0 and acc[pi][0].get("k") == "Let" and acc[pi][0]["pat"].get("k") == "Binding":
-        let = acc[pi][0]
-        lid = let["pat"]["local"]
-        # statements of the enclosing block after this let
-        bi = acc[pi][1]
-        blk = acc[bi][0] if bi >= 0 else None
-        if blk and blk.get("k") == "Block":
-            stmts = blk["stmts"]
-            idx = [j for j, s in enumerate(stmts) if s is let]
-            if idx and idx[0] + 1 < len(stmts):
-                nxt = stmts[idx[0] + 1]
-                uses = [x for x in subnodes(nxt) if x.get("k") == "MethodCall" and x["method"].startswith("sort")
-                        and x["recv"].get("k") == "Path" and x["recv"].get("local") == lid]
-                if uses:
-                    key_total = True
-                    return "insensitive", "collected into a Vec that is sorted (`%s`) before any other use" % uses[0]["method"]
-    t = peel_ty(collect_node.get("t", ""))
-    return "sensitive", "collected into ordered container %s without sorting" % t.split("<")[0]
+    uses = [j for j, (x, _) in enumerate(acc) if j > let_i and x.get("k") == "Path" and x.get("local") == lid]
+    worst = None
+    for j in uses:
+        x = acc[j][0]
+        pj = acc[j][1]
+        par = acc[pj][0] if pj >= 0 else {}
+        if par.get("k") == "MethodCall" and par.get("recv") is x:
+            if par["method"].startswith("sort"):
+                if worst is None:
+                    return "insensitive", "bound to a local that is sorted (`%s`) before any other use" % par["method"], None
+                break
+            if par["method"] in NEUTRAL_ON_LOCAL:
+                continue
+        v = classify(P, f, j, x, depth + 1, enumerated)
+        if isinstance(v[0], tuple) or v[0] == "unknown":
+            if worst is None or worst[0] != "sensitive":
+                worst = ("unknown", v[1] if not isinstance(v[0], tuple) else "bound to a local that is returned", None)
+        elif v[0] == "sensitive":
+            worst = v
+    if worst is None:
+        if collected and not uses:
+            return "insensitive", "bound to a local that is never used", None
+        return "insensitive", "bound to a local whose uses are all order-insensitive", None
+    if worst[0] == "unknown" and collected:
+        return "sensitive", "collected into ordered container %s without sorting (%s)" % (collected, worst[1]), collected
+    return worst
 
 
-def for_body(P, f, mi, match_node):
-    """a for loop over a hash container is order-insensitive iff its body only inserts into unordered containers"""
+def effects_of(P, f, region, what):
+    """a loop body / for_each closure over a hash container is order-insensitive iff it only inserts into unordered containers"""
     effects = []
-    for x in subnodes(match_node):
+    for x in subnodes(region):
         if x.get("k") == "MethodCall":
             m = x["method"]
             rt = x.get("recv_ty", "")
             if m in ("insert", "entry", "extend", "remove") and is_unordered(rt):
-                effects.append(("unordered-insert", m))
+                effects.append(("unordered-insert", m, None))
             elif m in ("push", "push_str", "write", "write_str", "write_fmt", "push_back", "extend", "append", "insert"):
-                effects.append(("ordered-effect", m + " on " + peel_ty(rt).split("<")[0]))
+                effects.append(("ordered-effect", m + " on " + peel_ty(rt).split("<")[0], _tyname(rt)))
         elif x.get("k") == "Call":
             c = call_name(x) or ""
             if c.endswith("_print") or c.endswith("_eprint"):
-                effects.append(("ordered-effect", "print"))
+                effects.append(("ordered-effect", "print", "print"))
         elif x.get("k") in ("Ret", "Break") and "desugar" not in (x.get("x") or "") and x.get("e") is not None:
-            effects.append(("ordered-effect", "early exit with a value"))
+            effects.append(("ordered-effect", "early exit with a value", "first-match"))
     bad = [e for e in effects if e[0] == "ordered-effect"]
     if not bad and effects:
-        return "insensitive", "loop body only inserts into unordered containers (%d inserts)" % len(effects)
+        return "insensitive", "%s only inserts into unordered containers (%d inserts)" % (what, len(effects)), None
     if not effects:
-        return "insensitive", "loop body has no order-dependent effect"
-    return "sensitive", "loop body has order-dependent effects: %s" % sorted(set(e[1] for e in bad))
+        return "insensitive", "%s has no order-dependent effect" % what, None
+    return "sensitive", "%s has order-dependent effects: %s" % (what, sorted(set(e[1] for e in bad))), "+".join(sorted(set(e[2] for e in bad)))
 
 
 def opaque_function(f):
@@ -180,38 +253,83 @@ def opaque_function(f):
     return ret != "()"
 
 
+def _source_matches(P, crate, source, want):
+    """is one of the `Adt.field` components of `source` a field of the ADT named want[0] (in `crate`) whose type starts with want[1]"""
+    for part in source.split("/"):
+        if "." not in part:
+            continue
+        adt_name, fld = part.split(".", 1)
+        if adt_name != want[0]:
+            continue
+        for ap, a in P.adts.items():
+            if ap.startswith(crate + "::") and ap.split("::")[-1] == adt_name and a.kind == "Struct" and (a.field_types().get(fld) or "").startswith(want[1]):
+                return True
+    return False
+
+
+def _entry(P, path):
+    hits = [g for g in P.fns.values() if g.path == path]
+    return hits[0] if hits else None
+
+
 def r17a(P, R):
     sites = hash_sources(P)
     R.count("hash_iteration_sites", len(sites))
-    work = list(sites)
+    work = [(f, i, node, what, source_of(f, node)) for f, i, node, what in sites]
     seen_wrappers = set()
     n = 0
+    used = {}
+    reach_cache = {}
+
+    def under(entry_path):
+        if entry_path not in reach_cache:
+            e = _entry(P, entry_path)
+            reach_cache[entry_path] = P.reachable([e]) if e is not None else None
+        return reach_cache[entry_path]
+    keys = {}
     while work:
-        f, i, node, what = work.pop(0)
+        f, i, node, what, source = work.pop(0)
         n += 1
-        key = "%s:%s" % (f.path, what)
-        verdict, reason = classify(P, f, i, node)
+        key = "%s:%s:%s" % (f.crate, source, what)
+        keys[key] = keys.get(key, 0) + 1
+        if keys[key] > 1:
+            key += "#%d" % keys[key]
+        verdict, reason, sink = classify(P, f, i, node)
         if isinstance(verdict, tuple):
             w = verdict[1]
             R.holds("R17-a", key, "iteration order is handed to the callers of %s (each caller classified)" % short(w.path), loc=f.loc())
             if w.path not in seen_wrappers:
                 seen_wrappers.add(w.path)
-                for g in P.fns.values():
+                for g in sorted(P.fns.values(), key=lambda g: g.path):
                     if g.derived or "::tests" in g.path:
                         continue
                     for j, (c, _) in enumerate(g.nodes()):
                         if c.get("k") in ("MethodCall", "Call") and call_name(c) == w.path:
-                            work.append((g, j, c, w.name))
+                            work.append((g, j, c, "via " + w.name, source))
             continue
         if verdict != "insensitive" and opaque_function(f):
             verdict, reason = "insensitive", "%s; but the enclosing function returns `%s` and takes no &mut input, so order cannot escape it" % (reason, (f.sig_output or "").split("<")[0])
         if verdict == "insensitive":
             R.holds("R17-a", key, reason, loc=f.loc())
-        elif key in ALLOW:
-            R.holds("R17-a", key, "listed: " + ALLOW[key], loc=f.loc())
-        else:
-            R.violated("R17-a", key, "iteration over a hash container reaches an order-dependent sink (%s): output can differ "
-                       "between processes with different hash seeds" % reason, loc=f.loc(), detail={"verdict": verdict})
+            continue
+        entry = next((a for a in ALLOW if a["crate"] == f.crate and a["sink"] == sink and _source_matches(P, f.crate, source, a["source"])), None)
+        if entry is not None:
+            idx = ALLOW.index(entry)
+            ok_under = under(entry["only_under"])
+            if ok_under is None:
+                R.undecided("R17-a", key, "listed site, but its entry point %s cannot be resolved" % entry["only_under"], loc=f.loc())
+                continue
+            bad_under = [e for e in entry["never_under"] if under(e) is not None and f.path in under(e)]
+            if f.path in ok_under and not bad_under and used.get(idx, 0) < entry["count"]:
+                used[idx] = used.get(idx, 0) + 1
+                R.holds("R17-a", key, "listed: " + entry["reason"], loc=f.loc())
+                continue
+            why = ("it is reachable from %s" % bad_under) if bad_under else \
+                  ("it is not reachable from %s" % entry["only_under"]) if f.path not in ok_under else "the listed site already exists elsewhere: this is a further one"
+            reason = "%s; the allow-table lists one iteration over %s into a %s, but %s" % (reason, source, sink, why)
+        R.violated("R17-a", key, "%s iterates a hash container (%s; %s) and the order reaches %s: output can differ between processes with "
+                   "different hash seeds" % (f.path, source, what, ("an order-dependent sink (%s)" % reason) if verdict == "sensitive" else
+                                             ("a sink the classifier cannot prove order-free (%s)" % reason)), loc=f.loc(), detail={"verdict": verdict})
     R.floor("R17-a", "hash iteration sites", n, 8)
 
 
@@ -348,7 +466,9 @@ def r17pc(P, R):
     SC = Program(harness.selfcheck_facts())
     got = {}
     for f, i, n, what in hash_sources(SC):
-        v, why = classify(SC, f, i, n)
+        v, why, _ = classify(SC, f, i, n)
+        if isinstance(v, tuple) and not SC.callers_of(f.path):
+            v = "sensitive"  # the control returns the unsorted collection to (absent) callers: the order escapes
         if v != "insensitive" and opaque_function(f):
             v = "insensitive"
         got[f.name] = v
@@ -374,8 +494,9 @@ EXPLANATION = (
     "of a std HashMap/HashSet (iter/keys/values/drain/retain/into_iter, for-loops, Debug formatting; resolved by receiver type, "
     "not by name) is enumerated and its sink classified: collected into an unordered container, consumed by an order-free "
     "aggregate, sorted before any other use, a loop body that only inserts into unordered containers, or enclosed in a function "
-    "from which order cannot escape; wrappers that return the iterator are followed to their callers. Anything else must be in "
-    "the allow table with a reason. R17-b: no call to time, RNG, thread or pointer-formatting APIs anywhere in the workspace. "
+    "from which order cannot escape; wrappers that return the iterator (or a collection built from it) are followed to their callers, "
+    "locals to their uses. Anything else must be in the allow table with a reason; a listed site is described by what is iterated, the "
+    "kind of sink and the ABI entry it serves, not by the function it is written in. R17-b: no call to time, RNG, thread or pointer-formatting APIs anywhere in the workspace. "
     "R17-c (one structural piece of the permutation clause): in the checker no iteration in schema-definition order ends in an "
     "order-dependent consumer (find/position/next/take/fold...). Not decided: the rest of the permutation clause and directory enumeration order.")
 ASSUMPTIONS = ["third-party collections are deterministic given insertion order: indexmap, itertools::unique, lru, serde_yaml::Mapping",
